@@ -524,6 +524,9 @@ def clip(
 
     if a_max is not None:
         a = minimum(a_max, a, out=out, constant=constant)
+    if a_min is None and a_max is None:
+        # nothing to clip: behave like any other function of `a`
+        return mg.positive(a, out=out, constant=constant)
     return mg.astensor(a)
 
 
